@@ -9,12 +9,16 @@ pub mod rolling_logger;
 pub type LoggerLevel = log::Level;
 
 pub fn get_log_header(level: LoggerLevel) -> String {
+    // the sub-second part of the time stamp is printed without trailing zeros, so the text can be
+    // shorter than 34 bytes: pad or cut to 34 characters instead of slicing at a fixed byte offset
     format!(
-        "{} [{}]    ",
-        misc_helpers::get_date_time_string_with_milliseconds(),
-        level
-    )[..34]
-        .to_string()
+        "{:<34.34}",
+        format!(
+            "{} [{}]    ",
+            misc_helpers::get_date_time_string_with_milliseconds(),
+            level
+        )
+    )
 }
 
 #[cfg(test)]
